@@ -119,6 +119,36 @@ theorem localRun_timer_histogram (h : Handle) (bs : List F64) (levs : List LEv) 
     | sample k => simpa [localRun, localStep, Spec.C17.recordCount] using ih bk c
     | pass => simpa [localRun, localStep, Spec.C17.recordCount] using ih bk c
 
+/-- a counter written directly (`RegisterCounter(…).With(tags).Add`): the series holds the sum at any time -/
+theorem localRun_rawCounter (h : Handle) (levs : List LEv) : ∀ n,
+    localRun (.rawCounter h) (.counter n) levs = (.rawCounter h, .counter (n + Spec.C17.incSum levs)) := by
+  induction levs with
+  | nil => intro n; rfl
+  | cons e t ih =>
+    intro n
+    cases e with
+    | inc k =>
+      simp only [localRun, localStep, Val.add, Spec.C17.incSum]
+      rw [ih]; congr 2; omega
+    | update k => simpa [localRun, localStep, Spec.C17.incSum] using ih n
+    | record k => simpa [localRun, localStep, Spec.C17.incSum] using ih n
+    | sample k => simpa [localRun, localStep, Spec.C17.incSum] using ih n
+    | pass => simpa [localRun, localStep, Spec.C17.incSum] using ih n
+
+/-- a gauge written directly (`RegisterGauge(…).With(tags).Set`): the series holds the last update at any time -/
+theorem localRun_rawGauge (h : Handle) (levs : List LEv) : ∀ b,
+    localRun (.rawGauge h) (.gauge b) levs = (.rawGauge h, .gauge (Spec.C17.lastUpdate levs b)) := by
+  induction levs with
+  | nil => intro b; rfl
+  | cons e t ih =>
+    intro b
+    cases e with
+    | update x => simpa [localRun, localStep, Val.set, Spec.C17.lastUpdate] using ih x
+    | inc k => simpa [localRun, localStep, Spec.C17.lastUpdate] using ih b
+    | record k => simpa [localRun, localStep, Spec.C17.lastUpdate] using ih b
+    | sample k => simpa [localRun, localStep, Spec.C17.lastUpdate] using ih b
+    | pass => simpa [localRun, localStep, Spec.C17.lastUpdate] using ih b
+
 /-! ### `gather` -/
 
 theorem mem_gather (r : Reporter) (e : GEntry) : e ∈ gather r ↔ e ∈ entriesOf r := by
